@@ -71,8 +71,9 @@ def main():
         shutil.rmtree(scratch, ignore_errors=True)
         for f, b in saved.items():
             f.write_bytes(b)
-        # leave Generated.v / build state consistent with /repo again
-        subprocess.run([str(VERIF / "setup.sh")], capture_output=True, text=True, cwd=str(VERIF))
+        # leave Generated.v / build state consistent with /repo again (a batch run does it once at the end)
+        if not os.environ.get("RUN_SEEDED_NO_SETUP"):
+            subprocess.run([str(VERIF / "setup.sh")], capture_output=True, text=True, cwd=str(VERIF))
     print(json.dumps({k: out[k] for k in ("property", "caught_by")}))
     (d / "last_run.json").write_text(json.dumps(out, indent=1) + "\n")
     return 0
